@@ -10,6 +10,9 @@
 //   * <a, N b> = <N^T a, b>, same for NInv and NDot, on all basis pairs
 //   * calcQDotDot(udot*) = N udot* + NDot u  (NDot from the library: tight; NDot by finite difference: FD bound)
 //   * realize(Acceleration): getQDotDot = N getUDot + NDot u
+// History sections (HS, HA, HX): one State is realized at configuration A, (optionally copied,) given the q,u of configuration B
+// and realized again; every kinematic read-out (X_FM, V_FM, X_GB, V_GB, A_GB, qdot, udot, every column of the system Jacobian
+// = the hinge matrices H as the operators see them) must be BITWISE what a fresh State at B gives.
 // Violations are attributed to one mobilizer (kind-dir-coord) so that a defect of one node class gets its own key.
 #include "Simbody.h"
 #include "SimbodyMatterSubsystemRep.h"
@@ -45,7 +48,10 @@ struct Ctx {
     // defect classes found on the unchanged tree (notes/C03.md): (D1) reversed LineOrientation / FreeLine with the quaternion option
     // use the inverted rotation in qdot = N u (every oracle that follows the motion sees it); (D2) LineOrientation / FreeLine with
     // the quaternion option, either direction: multiplyByNDot omits the N_FF * d/dt(R_FM) term.
+    // (D3) FunctionBased with a non-zero constant rotation function in front of coordinate-driven ones: H is built as if that
+    // constant were zero (kind FBConstRot2, sections SX/AX only).
     std::string defectClass(const std::string& oracle, int b) const {
+        if (M.specs[b].kind == mb::KFBConstRot2 && (oracle == "pose-derivative-vs-velocity" || oracle == "station-derivative-vs-velocity")) return "[FBConstRot2]";
         if (!lineQuat(b)) return "";
         if (M.specs[b].dir == 1) return "[LineOrientation|FreeLine-rev-quat]";
         if (oracle == "NDot-vs-finite-difference") return "[LineOrientation|FreeLine-fwd-quat]";
@@ -134,6 +140,54 @@ static void checkModel(verif::Run& run, const std::vector<mb::BodySpec>& specs, 
         Vector eu(nu), oq(nq), ou(nu); std::vector<LD> ec(nb, 0);
         for (int i = 0; i < nu; ++i) { eu = 0; eu[i] = 1; M.matter.multiplyByN(s, false, eu, oq); M.matter.multiplyByNInv(s, false, oq, ou); for (int j = 0; j < nu; ++j) { LD e = fabsl((LD)ou[j] - (i == j ? 1 : 0)); int b = uOwner[i]; if (!(e <= ec[b])) ec[b] = e; } }
         for (int b = 0; b < nb; ++b) if (nub[b]) cx.report("NInv(N(e_i))", b, (double)(ec[b] / (Nmax * Nmax)), TOL);
+    }
+    // ---- absolute poses: X_GB = X_GP * X_PF * X_FM * inv(X_BM), composed here in long double from the parent's reported pose, the
+    //      mobilizer's default frames and its reported across-mobilizer transform (whose closed form C05 checks against the documentation)
+    for (int b = 0; b < nb; ++b) {
+        const MobilizedBody& mo = M.bodies[b];
+        const Transform XGP = mo.getParentMobilizedBody().getBodyTransform(s), XPF = mo.getInboardFrame(s), XFM = mo.getMobilizerTransform(s), XBM = mo.getOutboardFrame(s), XGB = mo.getBodyTransform(s);
+        auto toL = [](const Transform& X, LD R[3][3], LD p[3]) { for (int i = 0; i < 3; ++i) { p[i] = X.p()[i]; for (int j = 0; j < 3; ++j) R[i][j] = X.R().asMat33()(i, j); } };
+        auto mul = [](const LD A[3][3], const LD a[3], const LD B[3][3], const LD bb[3], LD C[3][3], LD c[3]) {
+            for (int i = 0; i < 3; ++i) { c[i] = a[i]; for (int k = 0; k < 3; ++k) c[i] += A[i][k] * bb[k]; for (int j = 0; j < 3; ++j) { C[i][j] = 0; for (int k = 0; k < 3; ++k) C[i][j] += A[i][k] * B[k][j]; } } };
+        LD R1[3][3], p1[3], R2[3][3], p2[3], R3[3][3], p3[3], R4[3][3], p4[3], Ra[3][3], pa[3], Rb[3][3], pb[3], Rc[3][3], pc[3], Ri[3][3], pi_[3];
+        toL(XGP, R1, p1); toL(XPF, R2, p2); toL(XFM, R3, p3); toL(XBM, R4, p4);
+        for (int i = 0; i < 3; ++i) { pi_[i] = 0; for (int j = 0; j < 3; ++j) { Ri[i][j] = R4[j][i]; pi_[i] -= R4[j][i] * p4[j]; } }   // inverse of X_BM
+        mul(R1, p1, R2, p2, Ra, pa); mul(Ra, pa, R3, p3, Rb, pb); mul(Rb, pb, Ri, pi_, Rc, pc);
+        LD e = 0; for (int i = 0; i < 3; ++i) { e = std::max(e, fabsl(pc[i] - (LD)XGB.p()[i]) / std::max<LD>(1, fabsl(pc[i]))); for (int j = 0; j < 3; ++j) e = std::max(e, fabsl(Rc[i][j] - (LD)XGB.R().asMat33()(i, j))); }
+        cx.report("pose-composition-X_GB=X_GP*X_PF*X_FM*inv(X_BM)", b, (double)e, TOL);
+    }
+    // ---- the same operators with non-contiguous arguments and results (rows of matrices): must give the dense columns above and
+    //      leave the neighbouring rows untouched
+    if (nu > 0 && nq > 0) {
+        Vector gu(nu), gq(nq); for (int i = 0; i < nu; ++i) gu[i] = 0.3 + 0.17 * i - 0.05 * i * i; for (int k = 0; k < nq; ++k) gq[k] = -0.4 + 0.11 * k + 0.03 * k * k;
+        for (int op = 0; op < 3; ++op) for (int tr = 0; tr < 2; ++tr) {
+            if (op == 2 && hasCustomBall) continue;
+            // which of u / q is the input: N, NDot: in=u (tr: in=q); NInv: in=q (tr: in=u)
+            const bool inIsU = (op == 1) ? tr : !tr;
+            const int ni = inIsU ? nu : nq, no = inIsU ? nq : nu;
+            Vector in(ni), outC(no); for (int i = 0; i < ni; ++i) in[i] = inIsU ? gu[i] : gq[i];
+            Matrix Min(3, ni), Mout(3, no); Min.setTo(-7); Mout.setTo(-7);
+            for (int i = 0; i < ni; ++i) Min(1, i) = in[i];
+            RowVectorView ri = Min[1]; RowVectorView ro = Mout[1];
+            auto call = [&](const Vector& a, Vector& b) {
+                if (op == 0) M.matter.multiplyByN(s, tr, a, b); else if (op == 1) M.matter.multiplyByNInv(s, tr, a, b); else M.matter.multiplyByNDot(s, tr, a, b); };
+            outC = 0; call(in, outC);
+            // strided input / contiguous output, contiguous input / strided output, both strided
+            LD worst = 0; bool clobber = false;
+            for (int mode = 0; mode < 3; ++mode) {
+                Mout.setTo(-7); Vector outS(no); outS = 0;
+                if (mode == 0) { VectorView vi = ~ri; call(vi, outS); }
+                else if (mode == 1) { VectorView vo = ~ro; call(in, vo); for (int k = 0; k < no; ++k) outS[k] = Mout(1, k); }
+                else { VectorView vi = ~ri; VectorView vo = ~ro; call(vi, vo); for (int k = 0; k < no; ++k) outS[k] = Mout(1, k); }
+                for (int k = 0; k < no; ++k) { LD e = fabsl((LD)outS[k] - (LD)outC[k]); if (!(e <= worst)) worst = e; }
+                for (int k = 0; k < no; ++k) if (Mout(0, k) != -7 || Mout(2, k) != -7) clobber = true;
+                for (int i = 0; i < ni; ++i) if (Min(0, i) != -7 || Min(2, i) != -7 || Min(1, i) != in[i]) clobber = true;
+            }
+            static const char* on[3] = {"N", "NInv", "NDot"};
+            const std::string nm = std::string("strided-arguments-") + on[op] + (tr ? "-transpose" : "");
+            cx.report(nm.c_str(), 0, (double)(worst / (Nmax * std::max<LD>(umax, 1))), TOL);
+            cx.report((nm + "-neighbours-untouched").c_str(), 0, clobber ? 1.0 : 0.0, 0.5);
+        }
     }
     // ---- qdot: state vs N u vs calcQDot
     std::vector<LD> qd0(nq);
@@ -264,6 +318,91 @@ static void checkModel(verif::Run& run, const std::vector<mb::BodySpec>& specs, 
     }
 }
 
+// ------------------------------------------------------------------ histories: a re-used State must give what a fresh State gives
+// read-outs of one realized state, grouped per mobilized body (J columns: per owner of the speed)
+struct Obs { std::vector<std::vector<std::vector<double> > > g; };      // g[group][body] = numbers
+static const char* OBS_NAME[] = {"X_FM", "V_FM", "X_GB", "V_GB", "A_GB", "qdot", "udot", "SystemJacobian-columns(H)"};
+enum { NOBS = 8 };
+static Obs observe(const mb::Model& M, State& s) {
+    const int nb = (int)M.bodies.size(), nu = s.getNU();
+    M.system.realize(s, Stage::Acceleration);
+    Obs o; o.g.assign(NOBS, std::vector<std::vector<double> >(nb));
+    auto putX = [](std::vector<double>& v, const Transform& X) { for (int i = 0; i < 3; ++i) for (int j = 0; j < 3; ++j) v.push_back(X.R()[i][j]); for (int i = 0; i < 3; ++i) v.push_back(X.p()[i]); };
+    auto putV = [](std::vector<double>& v, const SpatialVec& V) { for (int k = 0; k < 6; ++k) v.push_back(V[k / 3][k % 3]); };
+    for (int b = 0; b < nb; ++b) {
+        const MobilizedBody& mo = M.bodies[b];
+        putX(o.g[0][b], mo.getMobilizerTransform(s)); putV(o.g[1][b], mo.getMobilizerVelocity(s));
+        putX(o.g[2][b], mo.getBodyTransform(s)); putV(o.g[3][b], mo.getBodyVelocity(s)); putV(o.g[4][b], mo.getBodyAcceleration(s));
+        const int q0 = (int)mo.getFirstQIndex(s), nq = mo.getNumQ(s), u0 = (int)mo.getFirstUIndex(s), nub = mo.getNumU(s);
+        for (int k = 0; k < nq; ++k) o.g[5][b].push_back(s.getQDot()[q0 + k]);
+        for (int k = 0; k < nub; ++k) o.g[6][b].push_back(s.getUDot()[u0 + k]);
+        Vector e(nu); Vector_<SpatialVec> Je; e = 0;
+        for (int k = 0; k < nub; ++k) { e[u0 + k] = 1; M.matter.multiplyBySystemJacobian(s, e, Je); e[u0 + k] = 0; for (int i = 0; i < Je.size(); ++i) for (int c = 0; c < 6; ++c) o.g[7][b].push_back(Je[i][c / 3][c % 3]); }
+    }
+    return o;
+}
+static void setConfig(const mb::Model& M, State& s, int stateKind, int valueSet) {
+    for (int b = 0; b < (int)M.bodies.size(); ++b) { mb::setBodyQ(M, s, b, stateKind, valueSet); mb::setBodyU(M, s, b, stateKind, valueSet); }
+}
+static void checkHistories(verif::Run& run, const std::vector<mb::BodySpec>& specs, bool euler, int valueSet, bool thorough, const std::string& desc) {
+    auto Mp = mb::build(specs, euler);
+    mb::Model& M = *Mp;
+    const int nb = (int)specs.size();
+    Ctx cx{run, desc, M, euler};
+    const std::vector<int> configs = thorough ? std::vector<int>{0, 1, 2, 3} : std::vector<int>{1, 2, 3};
+    const Stage stages[3] = {Stage::Position, Stage::Velocity, Stage::Acceleration};
+    std::vector<Obs> fresh(4);
+    int nuTot = 0;
+    for (int c : configs) { State f = mb::makeState(M, c, valueSet); fresh[c] = observe(M, f); nuTot = f.getNU(); }
+    run.evaluation(verif::hashStr(desc), nuTot >= 1);
+    // per (group, body): worst difference over all histories of this model (one report each)
+    std::vector<std::vector<double> > worst(NOBS, std::vector<double>(nb, 0)); std::vector<std::vector<std::string> > at(NOBS, std::vector<std::string>(nb));
+    int64_t nHist = 0;
+    auto judge = [&](const Obs& o, int finalCfg, const std::string& hname) {
+        ++nHist;
+        for (int g = 0; g < NOBS; ++g) for (int b = 0; b < nb; ++b) {
+            const std::vector<double>& x = o.g[g][b]; const std::vector<double>& y = fresh[finalCfg].g[g][b];
+            double d = x.size() == y.size() ? 0 : INFINITY;
+            if (d == 0 && !x.empty() && memcmp(x.data(), y.data(), x.size() * sizeof(double)) != 0)
+                for (size_t i = 0; i < x.size(); ++i) { double e = std::abs(x[i] - y[i]); if (!(e <= d)) d = e; if (d == 0 && memcmp(&x[i], &y[i], sizeof(double)) != 0) d = 5e-324; }
+            if (d > worst[g][b]) { worst[g][b] = d; at[g][b] = hname; }
+        }
+    };
+    static const char* sn[3] = {"Position", "Velocity", "Acceleration"};
+    for (int a : configs) for (int b2 : configs) {
+        if (a == b2) continue;
+        for (int st = 0; st < 3; ++st) {
+            if (!thorough && st == 1) continue;
+            for (int carrier = 0; carrier < 2; ++carrier) {
+                State h = mb::makeState(M, a, valueSet);
+                M.system.realize(h, stages[st]);
+                if (st >= 1) { Vector e(h.getNU()); Vector_<SpatialVec> Je; if (h.getNU()) { e = 0; e[0] = 1; M.matter.multiplyBySystemJacobian(h, e, Je); } }   // the operators have used H at A
+                State copy; State* w = &h;
+                if (carrier) { copy = h; w = &copy; }
+                setConfig(M, *w, b2, valueSet);
+                std::string hn = std::string("realize(") + sn[st] + ")@cfg" + std::to_string(a) + (carrier ? ";copy" : "") + ";set-q,u@cfg" + std::to_string(b2);
+                judge(observe(M, *w), b2, hn);
+                if (!thorough) continue;
+                for (int c3 : configs) {         // depth 3: ... then a third configuration on the same carrier
+                    if (c3 == b2) continue;
+                    setConfig(M, *w, c3, valueSet);
+                    judge(observe(M, *w), c3, hn + ";set-q,u@cfg" + std::to_string(c3));
+                }
+            }
+        }
+    }
+    run.count("histories", nHist);
+    uint64_t oh = 1469598103934665603ULL;
+    for (int g = 0; g < NOBS; ++g) for (int b = 0; b < nb; ++b) {
+        if (fresh[configs[0]].g[g][b].empty()) continue;
+        Ctx cb{run, desc + " history=" + at[g][b], M, euler};
+        cb.report(std::string("history-vs-fresh-state(bitwise):") + OBS_NAME[g], b, worst[g][b], 0.0);
+        for (double v : fresh[configs.back()].g[g][b]) oh = verif::hashPod((float)v, oh);
+    }
+    run.outcome(oh);
+    if (run.verbose) for (int g = 0; g < NOBS; ++g) for (int b = 0; b < nb; ++b) printf("  %-28s body %d %-24s worst |history - fresh| = %.3g %s\n", OBS_NAME[g], b, cx.suffix(b).c_str(), worst[g][b], at[g][b].c_str());
+}
+
 int main(int argc, char** argv) {
     verif::Run run("C03", argc, argv);
     run.setDeadline(600, 2700);
@@ -276,8 +415,9 @@ int main(int argc, char** argv) {
                        "mass properties do not enter kinematics: generic mass only", "a body whose ancestor already failed the pose oracle is not reported again"};
     const int vs0 = (int)(((run.seed % 3) + 3) % 3);
     std::vector<int> valueSets = th ? std::vector<int>{0, 1, 2} : std::vector<int>{vs0};
-    mb::LevelA A; mb::LevelB B; mb::LevelC C; mb::LevelG G;
-    auto kd = mb::kindDirs();
+    mb::LevelA A; mb::LevelB B; mb::LevelC C; mb::LevelG G; mb::LevelS S;
+    // the two FunctionBased usages the unchanged library gets wrong (notes/C03.md D3, notes/C02.md): alone on Ground and in level-A trees
+    mb::LevelS SX; SX.kd = mb::defectKindDirs(); mb::LevelA AX; AX.kd = mb::defectKindDirs();
     auto section = [&](const std::string& name, int64_t nModels, std::function<std::vector<mb::BodySpec>(int64_t)> specsOf) {
         verif::Odometer od;
         od.dim("state", 4); od.dim("coord", 2); od.dim("valueset", (int64_t)valueSets.size()); od.dim("model", nModels);
@@ -293,11 +433,31 @@ int main(int argc, char** argv) {
             if (idx % 20011 == 0) run.sample(desc);
         });
     };
-    section("S", (int64_t)kd.size() * 4, [&](int64_t i) { mb::BodySpec b; b.kind = kd[i / 4].first; b.dir = kd[i / 4].second; b.frames = (int)(i % 4); b.mass = 0; b.parent = -1; return std::vector<mb::BodySpec>{b}; });
+    auto historySection = [&](const std::string& name, int64_t nModels, std::function<std::vector<mb::BodySpec>(int64_t)> specsOf) {
+        verif::Odometer od;
+        od.dim("coord", 2); od.dim("valueset", (int64_t)valueSets.size()); od.dim("model", nModels);
+        run.parallel(name, od.size(), [&](int64_t idx) {
+            auto d = od.digits(idx);
+            if (modelStride > 1 && d[2] % modelStride != 0) return;
+            auto specs = specsOf(d[2]);
+            bool euler = d[0] == 1;
+            std::string desc = name + " " + od.describe(idx) + " ";
+            { std::string m = euler ? "euler[" : "quat["; for (auto& b : specs) m += b.str() + " "; desc += m + "] vs=" + std::to_string(valueSets[d[1]]); }
+            try { checkHistories(run, specs, euler, valueSets[d[1]], th, desc); }
+            catch (const std::exception& e) { run.violation("exception/" + name, std::string("exception: ") + e.what() + " at " + desc, run.replayHeader() + "# " + desc + "\n"); }
+            if (idx % 5003 == 0) run.sample(desc);
+        });
+    };
+    section("S", S.size(), [&](int64_t i) { return S.specs(i, 0); });
     section("G", G.size(), [&](int64_t i) { return G.specs(i, 0); });
     section("A", A.size(), [&](int64_t i) { return A.specs(i, 0); });
     section("B", B.size(), [&](int64_t i) { return B.specs(i, 0); });
     if (th) section("C", C.size(), [&](int64_t i) { return C.specs(i, 0); });
+    section("SX", SX.size(), [&](int64_t i) { return SX.specs(i, 0); });
+    section("AX", AX.size(), [&](int64_t i) { return AX.specs(i, 0); });
+    historySection("HS", S.size(), [&](int64_t i) { return S.specs(i, 0); });
+    historySection("HA", A.size(), [&](int64_t i) { return A.specs(i, 0); });
+    historySection("HX", SX.size(), [&](int64_t i) { return SX.specs(i, 0); });
     run.extraCoverage["fd_step"] = verif::jsonNum(FD_H);
     return run.finish();
 }
